@@ -149,7 +149,32 @@ def parseTyStr (s : String) : Option GV.Spec.GoComparable.Ty :=
   | some (t, []) => some t
   | _ => none
 
+/-- `nil` or `<typ>:<m1.m2…|->` -/
+def parseDyn (s : String) : Option Dyn :=
+  if s == "nil" then some .nil else
+  match s.splitOn ":" with
+  | [t, ms] => match t.toNat?, (if ms == "-" then some [] else (ms.splitOn ".").mapM String.toNat?) with
+    | some t, some ms => some (.val t ms)
+    | _, _ => none
+  | _ => none
+
+def parseMs (s : String) : Option (List Nat) := if s == "-" then some [] else (s.splitOn ".").mapM String.toNat?
+
+def showAssertRes : AssertRes → String
+  | .value _ => "ok"
+  | .tuple _ ok => if ok then "ok=true" else "ok=false"
+  | .panic => "panic"
+
 def handleChk : List String → String
+  | ["massertiface", st, d, i, form] => match parseMs st, parseDyn d, parseMs i with
+    | some st, some d, some i => showAssertRes (runAssert (compileAssert st i (form == "t")) d)
+    | _, _, _ => "bad-op"
+  | ["sassertiface", _, d, i, form] => match parseDyn d, parseMs i with
+    | some d, some i =>
+      let sd : GV.Spec.Checks.Dyn := match d with | .nil => .nil | .val t ms => .val t ms
+      if form == "t" then (if (GV.Spec.Checks.assertIfaceOk sd i).2 then "ok=true" else "ok=false")
+      else (match GV.Spec.Checks.assertIface sd i with | some _ => "ok" | none => "panic")
+    | _, _ => "bad-op"
   | ["mcomparable", t] => match parseTyStr t with | some t => toString (tyComparable t) | none => "bad-op"
   | ["scomparable", t] => match parseTyStr t with | some t => toString (GV.Spec.GoComparable.comparable t) | none => "bad-op"
   | ["mifaceeqty", t] => match parseTyStr t with | some t => showOpt toString (ifaceEqSameType t) | none => "bad-op"
